@@ -6,6 +6,7 @@ import Tw.Proofs.Packet6Bounds
 import Tw.Proofs.Packet7Bounds
 import Tw.Proofs.PacketIterInst
 import Tw.Proofs.PacketFast
+import Tw.Proofs.PacketTwoStep
 import Tw.Proofs.HuffmanTable
 
 /-!
@@ -110,6 +111,29 @@ theorem v7_decompress_if_needed_never_panics (t : Tw.Huffman.Table) (bytes : Lis
     (hcap : Tw.Gen.Packet7.MAX_PACKETSIZE ≤ cap) (site : String) :
     Tw.Packet7.decompressIfNeeded t bytes cap ≠ .panic site :=
   Tw.Packet7.decompressIfNeeded_ne_panic t bytes cap hcap site
+
+/-- the two-step path `decompress_if_needed` → `read_panic_on_decompression` (callers without a scratch
+buffer for `read`, e.g. a dissector): whenever `decompress_if_needed` succeeds — it decompressed into `s`,
+or reports that nothing had to be done — the second step meets its precondition (`s` carries the header
+with the compression flag cleared: `needsDecompression s = false`) and never panics.  That the two-step
+result equals `Packet::read` of the datagram is checked on the implementation by the oracle
+`C06/two-step-read-differs` on every generated datagram. -/
+theorem v6_two_step_never_panics (t : Tw.Huffman.Table) (bytes : List UInt8) (cap : Nat) (hint : Option Bool)
+    (site : String) :
+    (∀ s, Tw.Packet6.decompressIfNeeded t bytes cap = .ok true s →
+      Tw.Packet6.needsDecompression s = false ∧ Tw.Packet6.read t s hint none ≠ .panic site) ∧
+    (Tw.Packet6.decompressIfNeeded t bytes cap = .ok false [] → Tw.Gen.Packet6.MAX_PACKETSIZE ≤ cap →
+      Tw.Packet6.read t bytes hint none ≠ .panic site) :=
+  ⟨fun s h => ⟨Tw.Packet6.din_output_not_compressed t bytes cap s h, Tw.Packet6.two_step_ne_panic t bytes cap s h hint site⟩,
+   fun h hcap => Tw.Packet6.two_step_ne_panic_plain t bytes cap h hcap hint site⟩
+
+theorem v7_two_step_never_panics (t : Tw.Huffman.Table) (bytes : List UInt8) (cap : Nat) (site : String) :
+    (∀ s, Tw.Packet7.decompressIfNeeded t bytes cap = .ok true s →
+      Tw.Packet7.needsDecompression s = false ∧ Tw.Packet7.read t s none ≠ .panic site) ∧
+    (Tw.Packet7.decompressIfNeeded t bytes cap = .ok false [] → Tw.Gen.Packet7.MAX_PACKETSIZE ≤ cap →
+      Tw.Packet7.read t bytes none ≠ .panic site) :=
+  ⟨fun s h => ⟨Tw.Packet7.din_output_not_compressed t bytes cap s h, Tw.Packet7.two_step_ne_panic t bytes cap s h site⟩,
+   fun h hcap => Tw.Packet7.two_step_ne_panic_plain t bytes cap h hcap site⟩
 
 /-! ## every returned slice lies inside the input or the scratch buffer -/
 
